@@ -814,6 +814,7 @@ var invalidAnywhere = []string{
 	"new;", "x=;", ");", "}", "]", "throw\n1;", "var a=;", "a?b;", "a?b:;", "this=1;", "for(1 in o);", "({a:1,,b:2});", "x=\"\\u12\";", "x='\\x1';",
 	"if(1)else;", "x=a+;", "x=typeof;", "var x,;", "x={a};", "x={a:};", "x=[1 2];", "label:label:x;", "x=a..b;", "x=.;", "tru\\u0065=0;", "var \\u0069f;",
 	"x=\"abc\n\";", "x=1e;", "x=0x;",
+	"for(x=1\nx<3;x++);", "for(var i=0\ni<1;i++);", "switch(1){default:case 1:default:}", "switch(1){case 1:default:;default:}",
 	"x=({+:1});", "x={0x:1};", "x={*:2,a:1};", "x={a:1,-:2};",
 	"x=/(?</;", "x=/a(?<!/;", "x=/(?<=/;", "x=/(?</g;", "x=/\\/;",
 	"x=1e3in{};", "x=.5E-2instanceof Object;", "x=0e0in[];", "x=3in[];", "x=01a;", "x=0x3in[];", "x=1.5a;", "x=1.e;",
@@ -827,6 +828,38 @@ var invalidSuffix = []string{
 	"x='unterminated", "/* unterminated", "if(", "for(;;", "with(", "[1,2", "for(var i=0;i<1;i++", "function f(){", "x={", "x=(1", "x=[", "switch(1){case",
 	"try{}catch", "try{}catch(", "try{}catch(e", "try{}catch(e)", "try{}finally", "if(1){}else", "do{}while(", "x=function(", "new f(", "x=a?", "var", "var x=", "x.",
 	"x[", "x=!", "delete", "void", "typeof", "x=y+", "x=y,", "throw", "'\\", "x={'unterminated:1};", "do;while", "(",
+}
+
+// Preflight: the corpus of invalid constructs and the syntax zoo are finite, so
+// every item is tried (alone and embedded) once per check run instead of being drawn.
+func (e rfEngine) Preflight(st *Stats) (*Violation, interface{}) {
+	valid := "var a0=1;function g0(x){return x+1}\nif(a0){g0(2)}\nvar z0=2;"
+	for _, bad := range invalidAnywhere {
+		for _, text := range []string{bad, bad + "\n", valid + "\n" + bad + "\nvar after=1;\n", bad + "\n" + valid} {
+			c := &RFCase{Engine: "readerfault", Seed: 1, Text: text, Kind: "invalid", Invalid: true}
+			if v, rc, _ := e.Exec(c, st); v != nil {
+				return v, rc
+			}
+		}
+	}
+	for _, bad := range invalidSuffix {
+		for _, text := range []string{bad, valid + "\n" + bad} {
+			c := &RFCase{Engine: "readerfault", Seed: 1, Text: text, Kind: "invalid", Invalid: true}
+			if v, rc, _ := e.Exec(c, st); v != nil {
+				return v, rc
+			}
+		}
+	}
+	for i, z := range syntaxZoo {
+		for _, text := range []string{z, valid + ";" + z, z + "\n" + valid} {
+			c := &RFCase{Engine: "readerfault", Seed: uint64(i + 1), Text: text}
+			if v, rc, _ := e.Exec(c, st); v != nil {
+				return v, rc
+			}
+		}
+	}
+	st.Probe("corpus_and_zoo_enumerated")
+	return nil, nil
 }
 
 func (rfEngine) Gen(t *rapid.T, tier string) interface{} {
